@@ -155,7 +155,9 @@ Weights == {<<ROne>>, <<R(1, 2), FromInt(-1)>>, <<RZero, ROne, R(1, 4)>>, <<ROne
 \* degrees 4..6 (every binomial row the weight operator expands), on low orders only: 32-bit integers
 HighWeights == {<<RZero, RZero, RZero, RZero, R(1, 8)>>, <<RZero, ROne, RZero, RZero, RZero, R(-1, 16)>>,
                 <<R(1, 2), RZero, RZero, RZero, RZero, RZero, R(1, 16)>>}
-WeightsFor(a, b) == Weights \cup (IF a.o + b.o <= 2 THEN HighWeights ELSE {})
+\* ... and on the highest order pair, so that total degrees 10 .. 12 occur and the rules with 6 and 7 points are needed
+HighWeights33 == {<<RZero, RZero, RZero, RZero, ROne>>, <<RZero, RZero, RZero, RZero, RZero, ROne>>}
+WeightsFor(a, b) == Weights \cup (IF a.o + b.o <= 2 THEN HighWeights ELSE IF a.o = 3 /\ b.o = 3 THEN HighWeights33 ELSE {})
 
 J(x) == x   \* (documentation: values below are serialised with ToJson)
 
@@ -193,7 +195,7 @@ SplCases(a) ==
            UNION {{[op |-> "FpInt", n |-> n, w |-> w, a |-> a, b |-> b,
                     exact |-> IF 2 * n - 1 >= a.o + b.o + (Len(w) - 1) THEN 1 ELSE 0,
                     E |-> WeightedVal(w, a, b), S |-> WeightedAbs(w, a, b)] :
-                     n \in 1..6, w \in WeightsFor(a, b)} :
+                     n \in 1..7, w \in WeightsFor(a, b)} :
                   b \in {x \in BigSplsOn(g) : x.c # <<>> /\ x.c = FrC(Len(x.c), x.o, 0)}})
 
 \* grid construction from special floating-point values (C11): every sequence of
